@@ -9,6 +9,7 @@
    Proofs: proofs/ScanCover.v, LRSound.v (+ LRSoundInst.v by computation), ParseSound.v,
    ExpandProofs.v, IllegalReject.v, ScanLocal.v, ActionsTyped.v. *)
 Require Import Grits.spec.RefGrammar.
+Require Grits.gen.RuneTable Grits.GenRuneChecks Grits.proofs.RuneSweepAgree.
 Require Import Grits.Base Grits.ModeDefs Grits.Modes Grits.STypes Grits.Forms Grits.Tokens Grits.Scan
                Grits.gen.LRTables Grits.gen.LRCert Grits.LR Grits.Actions Grits.Expand
                Grits.spec.ScanSpec Grits.spec.Grammar
@@ -95,3 +96,12 @@ Print Assumptions C12_illegal_at_boundary_rejected.
 Print Assumptions C12_insert_illegal_rejected.
 Print Assumptions C12_outside_alphabet_illegal.
 Print Assumptions C12_grammar_is_reference.
+
+(* ---- the model's treatment of non-ASCII input is what the CODE does ----
+   Scan.v sees every byte >= 0x80 as one "other" character (ILLEGAL outside comments, skipped inside).
+   gen/RuneTable.v is regenerated on every run by executing the REAL scanner on every rune
+   U+0080..U+10FFFF alone and on a covering sample in eleven further contexts; in every context all runes
+   behave alike and as the model's "other" byte does. *)
+Theorem C12_rune_sweep_agrees : Grits.GenRuneChecks.rune_sweep_ok_b = true.
+Proof. exact Grits.proofs.RuneSweepAgree.rune_sweep_agrees. Qed.
+Print Assumptions C12_rune_sweep_agrees.
